@@ -46,6 +46,8 @@ func genSource(s spec) genOut {
 		return genRestrict(s)
 	case "lex":
 		return genLex(s)
+	case "clauses":
+		return genClauses(s)
 	}
 	return genOut{Src: "", Class: "unknown-family:" + s.Fam}
 }
